@@ -15,12 +15,12 @@ PID = "C23"
 SHARDS = {"quick": 8, "thorough": 16}
 
 NAMES = ["t1", "t2", "dir/t3"]
-NSS = ["u1", "u2"]
+NSS = ["u1", "u2", 0]  # 0 is a namespace like any other (a tenant id), not "no namespace"
 KINDS = ["cdict", "cchoice", "cfs", "cns", "cnsfs"]
 
 
 def text_of(ns, name: str, version: int) -> str:
-    return f"[{ns or '-'}/{name}#v{version}]" + "{{ g }}"
+    return f"[{'-' if ns is None else ns}/{name}#v{version}]" + "{{ g }}"
 
 
 def _ns_of(ns_key, context, kwargs):
@@ -44,7 +44,7 @@ def _classes():
 
         def get_source(self, env, template_name, *, context=None, **kwargs):
             ns = _ns_of("ns", context, kwargs)
-            key = f"{ns}/{template_name}" if ns else template_name
+            key = f"{ns}/{template_name}" if ns is not None else template_name
             src = super().get_source(env, key)
             return type(src)(src.text, template_name, src.uptodate, src.matter)
 
@@ -58,11 +58,11 @@ def _classes():
 
         def get_source(self, env, template_name, *, context=None, **kwargs):
             ns = _ns_of("ns", context, kwargs)
-            return super().get_source(env, f"{ns}/{template_name}" if ns else template_name)
+            return super().get_source(env, f"{ns}/{template_name}" if ns is not None else template_name)
 
         async def get_source_async(self, env, template_name, *, context=None, **kwargs):
             ns = _ns_of("ns", context, kwargs)
-            return await super().get_source_async(env, f"{ns}/{template_name}" if ns else template_name)
+            return await super().get_source_async(env, f"{ns}/{template_name}" if ns is not None else template_name)
 
     class CachingNsFileSystemLoader(CachingLoaderMixin, NsFileSystemLoader):
         def __init__(self, search_path, *, auto_reload=True, namespace_key="", capacity=300):
@@ -82,20 +82,28 @@ class Store:
         self.dict_b: dict = {}
         self.versions: dict = {}  # (ns, name) -> [texts...]
         self.tick = 1_700_000_000
+        self.low = 1_600_000_000
 
     def keys(self):
         if self.kind in ("cns", "cnsfs"):
             return [(ns, n) for ns in [None, *NSS] for n in NAMES]
         return [(None, n) for n in NAMES]
 
-    def write(self, ns, name: str, version: int) -> None:
+    def write(self, ns, name: str, version: int, back: bool = False) -> None:
         text = text_of(ns, name, version)
         self.versions.setdefault((ns, name), []).append(text)
-        key = f"{ns}/{name}" if ns else name
+        key = f"{ns}/{name}" if ns is not None else name
         if self.kind in ("cfs", "cnsfs"):
             path = self.scratch.write(key, text)
-            self.tick += 10
-            os.utime(path, (self.tick, self.tick))
+            # every edit gets a modification time of its own; "back" edits get an older one than anything before
+            # (a restored backup, cp -p, rsync -t)
+            if back:
+                self.low -= 3600
+                stamp = self.low
+            else:
+                self.tick += 10
+                stamp = self.tick
+            os.utime(path, (stamp, stamp))
         elif self.kind == "cchoice":
             (self.dict_a if name != "t2" else self.dict_b)[key] = text
         else:
@@ -137,7 +145,7 @@ def build(case, scratch):
 def _request(env, op):
     """Perform one request; returns a comparable summary."""
     _, mode, name, how, ns, glob = op
-    kwargs = {"ns": ns} if how == "kw" and ns else {}
+    kwargs = {"ns": ns} if how == "kw" and ns is not None else {}
     g = {"g": glob} if glob is not None else None
 
     def summ(t, rendered):
@@ -146,7 +154,7 @@ def _request(env, op):
     if how == "ctx":
         # through a tag: the namespace comes from the render context's globals
         wrapper = env.from_string("{% include '" + name + "' %}|{% render '" + name + "' %}")
-        data = {"ns": ns} if ns else {}
+        data = {"ns": ns} if ns is not None else {}
         if glob is not None:
             data["g"] = glob
         if mode == "sync":
@@ -182,11 +190,11 @@ def evaluate(case) -> Verdict:
         nontrivial = False
         for step, op in enumerate(case["ops"]):
             if op[0] == "edit":
-                _, ns, name = op
+                _, ns, name = op[:3]
                 if (ns, name) not in store.versions:
                     continue
                 version += 1
-                store.write(ns, name, version)
+                store.write(ns, name, version, back=len(op) > 3 and bool(op[3]))
                 edited = True
                 continue
             got = _request(cenv, op)
@@ -245,7 +253,7 @@ def cases(draw):
     for _ in range(r.randint(3, 12)):
         c = r.random()
         if c < 0.2:
-            ops.append(["edit", r.choice([None, *NSS]) if kind in ("cns", "cnsfs") else None, r.choice(NAMES)])
+            ops.append(["edit", r.choice([None, *NSS]) if kind in ("cns", "cnsfs") else None, r.choice(NAMES), r.random() < 0.3])
         else:
             how = r.choice([None, "kw", "ctx"])
             ops.append([
@@ -266,7 +274,8 @@ def finish_kwargs(ctx: core.Ctx, tier: str) -> dict:
             "Request histories of 3-12 operations over 3 names (one with a directory component), 2 namespaces and a "
             "missing name: get_template / get_template_async directly (namespace by keyword or absent, request "
             "globals absent or present) or through include+render tags (namespace from the render context), and "
-            "source edits (file edits bump mtime explicitly). Loaders: CachingDictLoader, CachingChoiceLoader, "
+            "source edits (file edits set mtime explicitly: forward, or - 30% - back to before any earlier version). One of the "
+            "three namespaces is the integer 0. Loaders: CachingDictLoader, CachingChoiceLoader, "
             "CachingFileSystemLoader and namespace-aware dict and file-system loaders composed with "
             "CachingLoaderMixin as documented; capacity 1-4, auto_reload on/off, namespace_key set/unset. After "
             "every request the result (name, source, globals, rendered text, or error class) must equal the "
